@@ -79,7 +79,7 @@ func runCaseFull(c *Case) (tr Trace) {
 			tr.Err = fmt.Sprint("harness panic: ", p)
 		}
 	}()
-	r := &runner{c: c, fns: map[int]*Fn{}, execs: map[int]int{}, poolFn: map[int]*Fn{}}
+	r := &runner{c: c, fns: map[int]*Fn{}, execs: map[int]int{}, poolFn: map[int]*Fn{}, poolRole: map[int]string{}}
 	curRunner = r
 	for i := range c.Fns {
 		r.fns[c.Fns[i].ID] = &c.Fns[i]
@@ -173,8 +173,15 @@ func runCaseFull(c *Case) (tr Trace) {
 			if f.Info {
 				do = append(do, dig.FillDecorateInfo(&info))
 			}
-			fv := r.makeFunc(f, "dec")
-			ot.Verdict = guard(func() error { return apis[op.Scope].decorate(fv.Interface(), do...) })
+			var dfn interface{}
+			if f.Pool != nil {
+				// a declared function used as a decorator (its name matters: CallbackInfo.Name)
+				dfn = poolFuncs[*f.Pool]
+				r.poolRole[*f.Pool] = "dec"
+			} else {
+				dfn = r.makeFunc(f, "dec").Interface()
+			}
+			ot.Verdict = guard(func() error { return apis[op.Scope].decorate(dfn, do...) })
 			if f.Info {
 				ot.Info = &Info{Inputs: strs(info.Inputs), Outputs: strs(info.Outputs)}
 			}
